@@ -1295,12 +1295,17 @@ impl History for ReplicaEngine {
         "abstract graph with >= 3 nodes and >= 2 edges on which at least 3 replicas passed the same-abstract-graph pre-check"
     }
     fn gen_cfg(&self, rng: &mut Rng, _tier: Tier) -> (Cfg, usize) {
-        let n = match rng.below(10) {
+        let mut n = match rng.below(10) {
             0 => rng.range(0, 2),
             1..=6 => rng.range(3, 6),
             _ => rng.range(7, 10),
         };
-        let m = if n == 0 { 0 } else { rng.below(2 * n + 2) };
+        // now and then a graph whose index spaces cross the word sizes of the bitsets and the
+        // growth steps of the scratch structures
+        if rng.chance(1, 300) {
+            n = *rng.pick(&[33usize, 65, 70, 129, 140]);
+        }
+        let m = if n == 0 { 0 } else if n > 12 { n / 2 + rng.below(n + n / 2) } else { rng.below(2 * n + 2) };
         (
             Cfg {
                 directed: rng.chance(1, 2),
@@ -1332,10 +1337,10 @@ impl History for ReplicaEngine {
 }
 
 fn build_abs(cfg: &Cfg, ops: &[Op]) -> Abs {
-    let n = cfg.n.min(40);
+    let n = cfg.n.min(160);
     let mut edges: Vec<(usize, usize, f64)> = Vec::new();
     if n > 0 {
-        for &(a, b, w) in ops.iter().take(200) {
+        for &(a, b, w) in ops.iter().take(400) {
             let a = a % n;
             // usize::MAX marks "self-loop at a"
             let b = if b == usize::MAX { a } else { b % n };
@@ -1487,6 +1492,7 @@ where
     Ty: ReplicaSet,
 {
     let a = build_abs(cfg, ops);
+    acc.probe_if(a.n > 64, "abstract_graph_with_more_than_64_nodes");
     let mut p = cfg.params.clone();
     if a.n > 0 {
         p.s %= a.n;
